@@ -208,6 +208,12 @@ def run_case(rec, case):
         # ---- the same through the public assemble() with a fresh form object
         X = _dense(assemble.assemble(mkvf(), kv, args=dict(args), symmetric=False, format='csr', layout='blocked'))
         _close(rec, 'config_vs_canonical', X, A0, scale, dict(sig, route='assemble()'), c); nconf += 1
+        # ---- the assembler object itself as `problem` (documented: kvs and args are ignored then)
+        try:
+            X = _dense(assemble.assemble(asm, kv))
+            _close(rec, 'config_vs_canonical', X, A0, scale, dict(sig, route='assemble(assembler object)'), c); nconf += 1
+        except Exception as ex:
+            rec.violation(dict(sig, oracle='assemble() accepts an assembler object', exc=type(ex).__name__), c, {'msg': str(ex)[:200]})
         # ---- the Assembler wrapper with explicit format/layout
         W0 = assemble.Assembler(mkvf(), kv, args=dict(args), symmetric=False)
         for fmt, layout in ([('csr', 'packed'), ('bsr', 'packed'), ('csc', 'blocked')] if vec else [('csc', 'blocked'), ('coo', 'blocked')]):
